@@ -52,6 +52,7 @@ type WorldOpts struct {
 	Committees  func(i int, rng *rand.Rand) []uint64
 	Delegates   int // how many of the genesis validators are delegates
 	NoAnchor    bool
+	AnchorStake uint64 // stake of the anchor validator (default 5e9: it then dominates every committee tally)
 	NodeOpts    func(i int, o *Options)
 }
 
@@ -94,6 +95,9 @@ func NewWorld(rng *rand.Rand, o WorldOpts) (*World, error) {
 			// the anchor: a validator the generator never pauses, unstakes or edits and that signs every block, so the
 			// committee is never empty (a chain whose validators all left cannot certify blocks; that is not a wedge)
 			stake = 5_000_000_000
+			if o.AnchorStake != 0 {
+				stake = o.AnchorStake
+			}
 			coms = []uint64{o.ChainID} // only the own committee: a lowered MaxCommittees must not be able to trim it away
 		}
 		compound := true
